@@ -53,14 +53,14 @@ Theorem C03_section_plan :
   forall junk enc st t s hpos b,
     s_index s <> 0 -> sh_type s <> SHT_NOBITS -> sh_type s <> SHT_NULL -> sh_size s <> 0 ->
     s_data s = Some b -> sh_size s <= lenN b -> s_loaded s = true -> sh_offset s < 2 ^ xw (s_cls s) ->
-    section_plan junk enc st t s hpos =
+    section_plan junk false enc st t s hpos =
       Ok (st, s, [(hpos, shdr_bytes enc s); (sh_offset s, firstnN b (sh_size s))]).
 Proof.
   intros junk enc st t s hpos b Hi Hn1 Hn2 Hz Hd Hb Hl Ho. unfold section_plan.
   assert (E : with_offset s (sh_offset s) = s).
   { destruct s; cbn in *. unfold with_offset; cbn. f_equal. unfold wrap. now apply N.mod_small. }
   destruct (N.eqb_spec (s_index s) 0); [contradiction|]. rewrite E.
-  apply N.eqb_neq in Hn1, Hn2, Hz. rewrite Hn1, Hn2, Hz, Hd. cbn [negb andb].
+  apply N.eqb_neq in Hn1, Hn2, Hz. rewrite Hn1, Hn2, Hz, Hd. cbn [negb andb]. unfold is_compressed. cbn [andb].
   unfold sec_get_data. rewrite Hl. cbn [negb andb bind]. rewrite Hd.
   rewrite rd_some by lia. cbn [bind]. unfold sliceN. rewrite skipnN_0. reflexivity.
 Qed.
@@ -141,7 +141,7 @@ Print Assumptions C03_one_segment_saved_file.
 Theorem C03_sections_plan_is_the_plan :
   forall junk enc h st todo done acc,
     e_shoff h < 2 ^ 63 -> Forall ready todo ->
-    sections_plan junk enc h [] st done todo acc =
+    sections_plan junk false enc h [] st done todo acc =
       Ok (st, rev_append done [] ++ todo, acc ++ flat_map (sec_writes enc (e_shoff h) (e_shentsize h)) todo).
 Proof. exact sections_plan_noseg. Qed.
 Print Assumptions C03_sections_plan_is_the_plan.
